@@ -206,7 +206,13 @@ def judge (m : Img) : Verdict := Id.run do
     let refs := r.cnt.getD c 0
     let rc := m.refcount c
     if rc > refs then leaks := s!"leak cluster={c} rc={rc} refs={refs}" :: leaks
-  return { structural := r.errs.reverse, under := under.reverse, leaks := leaks.reverse }
+  -- backing file name: inside the first cluster, after the header, at most 1023 bytes
+  let mut structural := r.errs.reverse
+  if m.h.backingOff ≠ 0 then
+    if m.h.backingSize > 1023 then structural := structural ++ ["backing-name-too-long"]
+    if m.h.backingOff + m.h.backingSize > m.cs then structural := structural ++ ["backing-name-outside-first-cluster"]
+    if m.h.backingOff < m.h.hdrLen then structural := structural ++ ["backing-name-inside-header"]
+  return { structural := structural, under := under.reverse, leaks := leaks.reverse }
 
 /-- C03: structurally valid with exact refcounts -/
 def Verdict.valid (v : Verdict) : Bool := v.structural.isEmpty && v.under.isEmpty && v.leaks.isEmpty
@@ -247,5 +253,24 @@ def guestSector (m : Img) (back : Nat → Nat) (s : Nat) : Option Nat :=
     let hoff := e % 2^56 / 512 * 512
     if hoff = 0 then some (back s)
     else sectorTok m.b (hoff + (s % spc) * 512)
+
+/-- what the specification says about guest cluster `g`, in the vocabulary of
+    `Qcow2Dev::get_mapping`: (class, host offset or guest offset for `back`,
+    compressed byte length upper bound, COPIED flag) -/
+def specMapping (m : Img) (g : Nat) : String × Nat × Nat × Bool :=
+  let e := m.l2Entry g
+  let hasBack := m.h.backingOff ≠ 0
+  let copied := e / 2^63 % 2 = 1
+  if e / 2^62 % 2 = 1 then
+    -- compressed cluster descriptor: x = 62 - (cluster_bits - 8)
+    let x := 62 - (m.h.cb - 8)
+    let off := e % 2^x
+    let nsect := e / 2^x % 2^(m.h.cb - 8)
+    ("comp", off, (nsect + 1) * 512 - off % 512, false)
+  else
+    let hoff := e % 2^56 / 512 * 512
+    if e % 2 = 1 ∧ m.h.version ≥ 3 then ("zero", hoff, 0, hoff ≠ 0 ∧ copied)
+    else if hoff = 0 then (if hasBack ∨ copied then ("back", g * m.cs, 0, false) else ("unalloc", 0, 0, false))
+    else ("data", hoff, 0, copied)
 
 end Qv.Spec
